@@ -158,7 +158,17 @@ func (g *AnyGen) Type(depth int) *spec.T {
 
 func (g *AnyGen) exotic(depth int) *spec.T {
 	g.label("exotic")
-	switch g.draw(9, "exotic") {
+	switch g.draw(12, "exotic") {
+	case 9:
+		// named types of the standard library: structs with unexported fields, named containers
+		g.label("std-type")
+		return spec.Named("time", "Time")
+	case 10:
+		g.label("std-type")
+		return []*spec.T{spec.Named("math/big", "Int"), spec.Named("net", "IP"), spec.Named("time", "Duration"), spec.Named("net/url", "URL")}[g.draw(4, "std-type")]
+	case 11:
+		g.label("std-type")
+		return []*spec.T{spec.Named("context", "Context"), spec.Named("sync", "Mutex"), spec.Named("encoding/json", "RawMessage"), spec.Named("io", "Reader")}[g.draw(4, "std-iface")]
 	case 0:
 		return spec.Iface("any")
 	case 1:
